@@ -52,6 +52,10 @@ fn main() {
         eprintln!("usage: nexrad-mc <Cxx> <quick|thorough> | nexrad-mc <Cxx> --replay <path>");
         std::process::exit(3);
     }
+    // process-global configuration is part of the environment the harness owns
+    if std::env::var("VERIF_KEEP_TZ").is_err() {
+        std::env::set_var("TZ", HARNESS_TZ);
+    }
     install_panic_hook();
     let Some((prop, run, replay)) = table().into_iter().find(|(p, _, _)| *p == args[1]) else {
         eprintln!("MACHINERY: unknown property {}", args[1]);
@@ -62,6 +66,9 @@ fn main() {
         let text = std::fs::read_to_string(path).unwrap_or_else(|e| machinery(&format!("cannot read {path}: {e}")));
         let v: Value = serde_json::from_str(&text).unwrap_or_else(|e| machinery(&format!("bad replay json: {e}")));
         let ctx: &'static Ctx = Box::leak(Box::new(Ctx::new(prop, Tier::Quick, true)));
+        set_logging(true);
+        replay(ctx, &v["case"]);
+        set_logging(false);
         replay(ctx, &v["case"]);
         let code = ctx.finish("other", serde_json::json!({}), vec![]);
         std::process::exit(code);
@@ -83,6 +90,26 @@ fn main() {
         _ => machinery("tier must be quick or thorough"),
     };
     let ctx: &'static Ctx = Box::leak(Box::new(Ctx::new(prop, tier, false)));
+    // pass 1 with every log macro live (arguments of trace!/debug! are evaluated only when a logger
+    // is installed at that level), pass 2 in the library's default state (no logging). Failures of
+    // both passes accumulate in the context; the evidence describes the second pass and records
+    // that the first one ran. C20 only drives cargo and is run once.
+    let two_passes = prop != "C20" && std::env::var("VERIF_SINGLE_PASS").is_err();
+    if two_passes {
+        set_logging(true);
+        let r1 = std::panic::catch_unwind(|| run(ctx));
+        if r1.is_err() {
+            let p = ESCAPED_PANIC.lock().ok().and_then(|g| g.clone()).unwrap_or_else(|| "<unknown panic>".into());
+            if p.contains("/repo/") {
+                ctx.fail(&format!("panic_outside_guard:{}", panic_class(&p)), || p.clone(), || serde_json::json!({"escaped_panic": p, "logging": "trace"}));
+            } else {
+                eprintln!("MACHINERY: harness panic (logging pass): {p}");
+                std::process::exit(3);
+            }
+        }
+        ctx.mark_pass_boundary("trace");
+    }
+    set_logging(false);
     let r = std::panic::catch_unwind(|| run(ctx));
     let code = match r {
         Ok((level, coverage, assumptions)) => {
